@@ -8,11 +8,14 @@ Emit == LET os == SetToSeq(OptMacros \X OptVals)
             ns == SetToSeq(NestedOpt)
             ps == SetToSeq(RebindPats)
             mm == SetToSeq(MMKeys \X MMKeys)
+            od == SetToSeq(UNION {[1..k -> OrderKinds] : k \in 2..3})
         IN TLCGet("stats").generated >= 0 /\ ndJsonSerialize(IOEnv.OUT,
-              [q \in 1..Len(os) |-> [m |-> "OptRes", fam |-> "option", mac |-> os[q][1], arg |-> os[q][2], exp |-> StdOpt(os[q][1], os[q][2])]]
-           \o [q \in 1..Len(rs) |-> [m |-> "OptRes", fam |-> "result", mac |-> rs[q][1], arg |-> rs[q][2], exp |-> StdRes(rs[q][1], rs[q][2])]]
+              [q \in 1..Len(os) |-> [m |-> "OptRes", fam |-> "option", mac |-> os[q][1], arg |-> os[q][2], exp |-> StdOpt(os[q][1], os[q][2]), eager |-> EagerArg("option", os[q][1])]]
+           \o [q \in 1..Len(rs) |-> [m |-> "OptRes", fam |-> "result", mac |-> rs[q][1], arg |-> rs[q][2], exp |-> StdRes(rs[q][1], rs[q][2]), eager |-> EagerArg("result", rs[q][1])]]
            \o [q \in 1..Len(ns) |-> [m |-> "OptRes", fam |-> "option", mac |-> "flatten", arg |-> ns[q], exp |-> Out(StdFlatten(ns[q]), FALSE)]]
            \o [q \in 1..Len(ps) |-> [m |-> "OptRes", fam |-> "rebind", mac |-> "rebind", arg |-> ps[q], exp |-> Out(RebindAssign(ps[q]), FALSE)]]
+           \o [q \in 1..Len(od) |-> [m |-> "OptRes", fam |-> "rebind_order", mac |-> "rebind", arg |-> od[q],
+                                     exp |-> Out(LET st == RebindOrd(od[q]) IN <<st.p, st.arr[0], st.arr[1], st.arr[2], st.arr[3]>>, FALSE)]]
            \o [q \in 1..Len(mm) |-> [m |-> "OptRes", fam |-> "minmax", mac |-> "minmax", arg |-> <<mm[q][1], mm[q][2]>>,
                                      exp |-> Out(<<MinRef(<<mm[q][1], "L">>, <<mm[q][2], "R">>)[2], MaxRef(<<mm[q][1], "L">>, <<mm[q][2], "R">>)[2]>>, FALSE)]])
 =============================================================================
